@@ -40,7 +40,10 @@ func (w *World) c07Packets(full bool) []Pkt {
 	chs := []chans{{"transfer", "channel-7", "transfer", "channel-0"}, {"transfer", "channel-9", "transfer", "channel-1"},
 		{"transfer", "channel-noble", "transfer", "channel-0"}, {"transfer", "chan.to_noble+01", "transfer", "channel-0"},
 		{"transfer", "channel-18446744073709551616", "transfer", "channel-0"}, {"transfer", "channel-7", "transfer", "channel-18446744073709551615"},
-		{"icahost", "channel-7", "transfer", "channel-0"}, {"transfer", "channel-7", "transfer", "channel-5"}}
+		{"icahost", "channel-7", "transfer", "channel-0"}, {"transfer", "channel-7", "transfer", "channel-5"},
+		// our own end under identifiers ICS-24 accepts (up to 64 characters) but ibc-go never generates: leading zeros, longer
+		// than the 32 characters orbiter allows for a counterparty identifier (only a hand-written genesis can create them)
+		{"transfer", "channel-7", "transfer", "channel-0000000000000000000000000001"}, {"transfer", "channel-7", "transfer", "channel-007"}}
 	mk := func(c chans, co coin, rcv, memo, sender string) Pkt {
 		return Pkt{SrcPort: c.sp, SrcChan: c.sc, DstPort: c.dp, DstChan: c.dc, Denom: co.denom, Amount: co.amt, Sender: sender, Receiver: rcv, Memo: memo}
 	}
